@@ -13,6 +13,8 @@ from __future__ import annotations
 import hashlib
 import json
 import math
+import contextlib
+import fcntl
 import os
 import random
 import re
@@ -46,6 +48,39 @@ TRUSTED_BASE = [
 
 class InfraError(Exception):
     """Infrastructure failure (exit code 2, never a silent pass)."""
+
+
+_LOCK_DEPTH = {"n": 0, "fh": None, "shared": None}
+
+
+@contextlib.contextmanager
+def build_lock(shared=False):
+    """Serialise what touches lean/.lake across concurrently running checks: translate + `lake build` + audit hold the
+    lock exclusively, a driver run (`lake env lean --run`, which reads the compiled files) holds it shared.  Two checks
+    share generated modules (C09/C10, C02/C03, C06/C07) and the Core libraries; two `lake build`s compiling the same
+    module at once delete each other's temporary files.  Re-entrant within one process."""
+    if _LOCK_DEPTH["n"] > 0:
+        _LOCK_DEPTH["n"] += 1
+        try:
+            yield
+        finally:
+            _LOCK_DEPTH["n"] -= 1
+        return
+    fh = open(os.path.join(LEAN_DIR, ".build.lock"), "a+")
+    fcntl.flock(fh, fcntl.LOCK_SH if shared else fcntl.LOCK_EX)
+    _LOCK_DEPTH.update(n=1, fh=fh, shared=shared)
+    try:
+        yield
+    finally:
+        _LOCK_DEPTH.update(n=0, fh=None, shared=None)
+        fcntl.flock(fh, fcntl.LOCK_UN)
+        fh.close()
+
+
+# messages of `lake build` / `lean` that mean "the build infrastructure failed", not "a proof does not check"
+_INFRA_PAT = re.compile(r"no such file or directory|object file '.*' of module .* does not exist|failed to open|resource temporarily unavailable|"
+                        r"permission denied|no space left|could not create|error code: 42949672|killed|out of memory|cannot allocate", re.I)
+
 
 
 def use_repo():
@@ -215,9 +250,10 @@ def run_driver(driver: str, lines, timeout=1800):
     if not lines:
         return []
     inp = "\n".join(lines) + "\n"
-    rc, out, err, _ = _run(
-        ["lake", "env", "lean", "--run", driver], cwd=LEAN_DIR, inp=inp, timeout=timeout
-    )
+    with build_lock(shared=True):
+        rc, out, err, _ = _run(
+            ["lake", "env", "lean", "--run", driver], cwd=LEAN_DIR, inp=inp, timeout=timeout
+        )
     if rc != 0:
         raise InfraError(f"driver {driver} failed rc={rc}: {err[-2000:]} {out[-500:]}")
     outs = [l for l in out.split("\n") if l != ""]
@@ -298,6 +334,13 @@ def prove(prop: str, modules, extra_props_files=(), driver=None):
     cmd = ["lake", "build"] + list(modules)
     res["checker_cmd"] = "cd lean && " + " ".join(cmd) + f" && lake env lean Audit/{prop}.lean  # #print axioms of every theorem"
     rc, out, err, _ = _run(cmd, cwd=LEAN_DIR, timeout=3000)
+    for attempt in range(2):
+        if rc == 0 or not _INFRA_PAT.search(out + err):
+            break
+        time.sleep(5 * (attempt + 1))          # a build-infrastructure failure (not a proof failure): try again
+        rc, out, err, _ = _run(cmd, cwd=LEAN_DIR, timeout=3000)
+    if rc != 0 and _INFRA_PAT.search(out + err) and not re.search(r"unsolved goals|type mismatch|unknown identifier|unknown constant|failed to synthesize|linarith failed|omega could not|ring failed|simp made no progress|declaration uses 'sorry'", out + err):
+        raise InfraError("lake build failed for a reason that is not a proof failure: " + (out + err)[-1200:])
     res["log"] += out[-4000:] + err[-4000:]
     props_files = [os.path.join(LEAN_DIR, "FDAProofs", "Props", f"{prop}.lean")] + list(extra_props_files)
     names = []
